@@ -2,7 +2,9 @@
 
 proof:          lean/PymtlVerif/Props/C04.lean  (all widths, all operands)
 correspondence: every operator of pymtl3.datatypes.Bits vs Model/Bits.lean on boundary-biased operands
-direct oracle:  independent big-int specification (harness/common/bitsutil.py: spec_*)
+direct oracle:  independent big-int specification (harness/common/bitsutil.py: spec_*) and, for every value-returning
+                operator, purity: the result is a fresh object (updating it in place changes neither the operands nor what
+                the same operation returns next) — "is a function of its operands" 
 """
 import itertools
 
@@ -112,18 +114,18 @@ def impl_eval(c):
   k = c[0]
   if k == 'bin':
     x, y = bu.mk(c[2], c[3]), bu.opnd_real(c[4]); f = bu.BINOPS[c[1]]
-    return bu.run(lambda: f(x, y))
+    return bu.run_fresh(lambda: f(x, y), (x, y))
   if k == 'rbin':
     kk, x = bu.opnd_real(c[2]), bu.mk(c[3], c[4]); f = bu.BINOPS[c[1]]
-    return bu.run(lambda: f(kk, x))
+    return bu.run_fresh(lambda: f(kk, x), (kk, x))
   if k == 'cmp':
     x, y = bu.mk(c[2], c[3]), bu.opnd_real(c[4]); f = bu.CMPOPS[c[1]]
-    return bu.run(lambda: f(x, y))
+    return bu.run_fresh(lambda: f(x, y), (x, y))
   if k == 'rcmp':
     kk, x = bu.opnd_real(c[2]), bu.mk(c[3], c[4]); f = bu.CMPOPS[c[1]]
-    return bu.run(lambda: f(kk, x))
+    return bu.run_fresh(lambda: f(kk, x), (kk, x))
   if k == 'inv':
-    x = bu.mk(c[1], c[2]); return bu.run(lambda: ~x)
+    x = bu.mk(c[1], c[2]); return bu.run_fresh(lambda: ~x, (x,))
   if k == 'ctor':
     v = bu.opnd_real(c[2])
     if c[3]: return bu.run(lambda: Bits(c[1], v, trunc_int=True))
